@@ -16,7 +16,7 @@ RULE = ('all 12 shipped methods + random user DIRK tableaux x mass matrix {None,
         'Newton on random smooth systems incl. non-convergent ones; distinct by descriptor; non-trivial if n >= 2 or a driver run has >= 2 attempts')
 MIN_NONTRIVIAL = {'quick': 300, 'thorough': 6000}
 REQUIRED_COUNTERS = ['oracle:stage_equations', 'oracle:step_result', 'oracle:order_conditions', 'oracle:controller_trace', 'oracle:const_times',
-                     'hook:newton', 'hook:step_attempt', 'oracle:newton_post']
+                     'hook:newton', 'hook:step_attempt', 'oracle:newton_post', 'oracle:attempt_consistency']
 ASSUMPTIONS = ["y'=const: DIRK results are exact only up to the hard-coded Newton tolerance (1e-4 per implicit stage), Rosenbrock results to rounding",
                'stage residuals are held to the Newton target the code states: max(1e-4, 1e-6*initial residual)',
                'order conditions are required to 5e-9 (coefficients are literature values printed to >= 10 digits)',
@@ -111,7 +111,7 @@ class Hooks:
         def rosenbrock_step(A, Gamma, b, b_hat, M, F, J, x, tau, data, Fx=None):
             rec.count('hook:step_attempt')
             e = {'type': 'ros', 'A': np.array(A), 'Gamma': np.array(Gamma), 'b': np.array(b), 'b_hat': None if b_hat is None else np.array(b_hat),
-                 'x': np.array(x, dtype=float), 'tau': float(tau), 'xobj': x}
+                 'x': np.array(x, dtype=float), 'tau': float(tau), 'xobj': x, 'Fx': None if Fx is None else np.array(Fx)}
             self.attempts.append(e)
             r = self.orig[2](A, Gamma, b, b_hat, M, F, J, x, tau, data, Fx=Fx)
             e['ret'] = r
@@ -196,6 +196,19 @@ def _call_allowing_noconv(solvers, T, Mop, F, J, x, tau, Fx):
     except solvers.NoConvergenceError:
         raise _NoConv()
 
+def _ros_ref(Al, Gam, b, bh, Md, F, Jd, x, tau):
+    """Textbook Rosenbrock step with dense linear algebra: (x_new, x_embedded, cond of the stage matrix, scale)."""
+    gam = Gam[0, 0]; Jx = np.asarray(Jd(x)); C = Md - tau * gam * Jx
+    ks = []
+    for i in range(len(b)):
+        yi = x + tau * sum(Al[i, j] * ks[j] for j in range(i))
+        rhs = F(yi) + (tau * Jx @ sum(Gam[i, j] * ks[j] for j in range(i)) if i > 0 else 0)
+        ks.append(np.linalg.solve(C, rhs))
+    ref_new = x + tau * sum(b[i] * ks[i] for i in range(len(b)))
+    ref_est = None if bh is None else x + tau * sum(bh[i] * ks[i] for i in range(len(b)))
+    cond = np.linalg.cond(C); scale = max(np.abs(ref_new).max(), np.abs(x).max(), tau * max(np.abs(k).max() for k in ks), 1.0)
+    return ref_new, ref_est, cond, scale
+
 def _step(rec, case, h):
     from pyiga import solvers
     from verif.gen import rng_for
@@ -219,14 +232,7 @@ def _step(rec, case, h):
         ok, r = guarded(rec, c, sig, solvers.rosenbrock_step, Al, Gam, b, bh, Mop, F, J, x.copy(), tau, dict())
         if not ok: return
         x_new, x_est = np.asarray(r[0], dtype=float).ravel(), np.asarray(r[1], dtype=float).ravel()
-        gam = Gam[0, 0]; Jx = np.asarray(Jd(x)); C = Md - tau * gam * Jx
-        ks = []
-        for i in range(len(b)):
-            yi = x + tau * sum(Al[i, j] * ks[j] for j in range(i))
-            rhs = F(yi) + (tau * Jx @ sum(Gam[i, j] * ks[j] for j in range(i)) if i > 0 else 0)
-            ks.append(np.linalg.solve(C, rhs))
-        ref_new = x + tau * sum(b[i] * ks[i] for i in range(len(b))); ref_est = x + tau * sum(bh[i] * ks[i] for i in range(len(b)))
-        cond = np.linalg.cond(C); scale = max(np.abs(ref_new).max(), np.abs(x).max(), tau * max(np.abs(k).max() for k in ks), 1.0)
+        ref_new, ref_est, cond, scale = _ros_ref(Al, Gam, b, bh, Md, F, Jd, x, tau)
         rec.count('oracle:stage_equations')
         rec.check_close('step_result', float(max(np.abs(x_new - ref_new).max(), np.abs(x_est - ref_est).max())), float(1e-11 * cond * scale * len(b)), sig, c)
         return
@@ -300,7 +306,7 @@ def _driver(rec, case, h):
     Mop, Md = _mass(rng, n, mkind)
     if pkind == 'const':
         cvec = rng.standard_normal(n)
-        F = lambda y: cvec.copy(); J = lambda y: np.zeros((n, n))
+        F = lambda y: cvec.copy(); J = lambda y: np.zeros((n, n)); Jd = J
     else:
         F, J, Jd = _problem(rng, n, pkind)
     x0 = rng.standard_normal(n)
@@ -328,6 +334,24 @@ def _driver(rec, case, h):
     if len(times) != len(sols): bad('one state per time'); return
     if times[0] != t0 or sols[0] is not x0 and not np.array_equal(sols[0], x0): bad('starts at (t0, x0)'); return
     if any(b_ <= a_ for a_, b_ in zip(times[:-1], times[1:])): bad('times strictly increasing', times=[float(t) for t in times[:6]]); return
+    # ---- every attempt of the run is a consistent step on its own: the right-hand side handed in is F of the start state, the
+    # right-hand side handed back is F of the new state, and a Rosenbrock attempt equals the textbook step from (x, tau)
+    for i, e in enumerate(att):
+        if e.get('raised') or 'ret' not in e: continue
+        rec.count('oracle:attempt_consistency')
+        Fs = F(e['x'])
+        if e.get('Fx') is not None and np.abs(e['Fx'] - Fs).max() > 1e-10 * (np.abs(Fs).max() + 1):
+            bad('the right-hand side handed to a step is F of the state the step starts from', attempt=i, deviation=float(np.abs(e['Fx'] - Fs).max())); return
+        xn = np.asarray(e['ret'][0], dtype=float).ravel(); Fn = e['ret'][-1]
+        if Fn is not None and np.shape(Fn) == np.shape(xn) and np.abs(np.asarray(Fn) - F(xn)).max() > 1e-9 * (np.abs(F(xn)).max() + 1):
+            bad('the right-hand side handed back by a step is F of the new state', attempt=i); return
+        if e['type'] == 'ros':
+            ref_new, ref_est, cond, scale = _ros_ref(e['A'], e['Gamma'], e['b'], e['b_hat'], Md, F, Jd, e['x'], e['tau'])
+            dev = float(np.abs(xn - ref_new).max())
+            if ref_est is not None and e['ret'][1] is not None: dev = max(dev, float(np.abs(np.asarray(e['ret'][1], dtype=float).ravel() - ref_est).max()))
+            rec.ratio('attempt_vs_textbook_step', dev, 1e-10 * cond * scale * len(e['b']))
+            if not dev <= 1e-10 * cond * scale * len(e['b']):
+                bad('every attempt of the driver equals the textbook step from its own (x, tau)', attempt=i, deviation=dev, first_attempt=(i == 0)); return
     if not adaptive:
         rec.count('oracle:const_times')
         import math
